@@ -34,4 +34,5 @@ MixesSimC11 == {<<"flushw", y, z>> : y, z \in Kinds6} \cup {<<"flushw", "flushw"
 EditsC11x == EditsC11 \cup {D2m}
 \* status machine / reconnect / back-off: failures in a row, with the timers allowed to fire
 MixesStatus == {<<"flushw", "pause", "resume">>, <<"resume", "flushw", "restart">>, <<"flushw", "flushn", "resume">>}
+MixRec == {<<"flushw", "pause">>}
 ====
